@@ -315,6 +315,8 @@ def run_shard(shard) -> Result:
         if shard.get("cmdline"):
             it["cmdline"] = shard["cmdline"]
         run_program(corpus.item_protos(it), corpus.item_name(it), res, {"item": it}, each_first=True, cmdline=it.get("cmdline", "all"))
+        if res.discards.get("protoc-rejected-schema"):  # a hand-written set protoc rejects is a harness bug, never a silent skip
+            res.inconclusive.append(f"hand-written set {shard['name']} rejected by protoc: {res.extra.get('discard_examples')}")
     elif k == "bundled":
         check_bundled(res)
     total = res.counters.get("programs", 0) + sum(v for kk, v in res.discards.items() if kk == "protoc-rejected-schema")
